@@ -8,6 +8,11 @@
 //	c06 co-bytes  ot.CO over p2p.Conn on a recording Duplex with deterministic
 //	           tapes: every byte on the wire + the receiver's labels vs the Lean
 //	           P-256/SHA-256 model
+//	           iknp and cot run HISTORIES of calls on one pair in which every call
+//	           names its caller-provided result buffer (buffers.go: fresh, kept
+//	           from the previous call, a window of an array of ones / one byte
+//	           value / random bytes, longer-than-needed packed-bit slices); the
+//	           specs are in the op lines (ops `iknpb`, `cotb`)
 //	c06 proto  oracle only: Chou-Orlandi (protocol, pure helpers, single
 //	           transfer API), RSA (protocol, single transfer API), COT/ROT over
 //	           the real base OTs
